@@ -302,7 +302,7 @@ func c12Contexts(tier string, seed uint64) []c12Context {
 	nGen, nCorpus, maxDocs := 8, 6, 8
 	c12Full = tier == "thorough"
 	if tier == "thorough" {
-		nGen, nCorpus, maxDocs = 60, 1000, 14
+		nGen, nCorpus, maxDocs = 100, 1000, 14
 	}
 	if v := envInt("VERIF_C12_GEN"); v > 0 {
 		nGen = v
